@@ -5,6 +5,7 @@ import (
 	"fmt"
 	"hash/fnv"
 	"os"
+	"path/filepath"
 	"sort"
 	"strings"
 	"time"
@@ -14,21 +15,21 @@ import (
 
 // CheckSpec: one property check = generator + executor.
 type CheckSpec struct {
-	Prop   string
-	World  string
-	Gen    func(t *rapid.T) *Program
-	Run    func(p *Program) *Result
+	Prop  string
+	World string
+	Gen   func(t *rapid.T) *Program
+	Run   func(p *Program) *Result
 	// NonTrivial decides whether a run counts as non-trivial for the evidence.
-	NonTrivial func(p *Program, r *Result) bool
-	Rule       string
-	RealStub   map[string]string
+	NonTrivial  func(p *Program, r *Result) bool
+	Rule        string
+	RealStub    map[string]string
 	Assumptions []string
 	// Enum, when set, lists a finite case space that is executed completely
 	// (by worker 0) instead of drawing programs with rapid.
-	Enum       func() []*Program
-	Level      string // evidence level (exploration | fault_enumeration | ...)
-	Quick      int    // total runs, quick tier (all workers together)
-	Thorough   int    // total runs, thorough tier
+	Enum     func() []*Program
+	Level    string // evidence level (exploration | fault_enumeration | ...)
+	Quick    int    // total runs, quick tier (all workers together)
+	Thorough int    // total runs, thorough tier
 }
 
 var Registry = map[string]*CheckSpec{}
@@ -77,20 +78,21 @@ type Report struct {
 	Seed        int64             `json:"seed"`
 	Evaluations int               `json:"evaluations"`
 	NonTrivial  int               `json:"nontrivial"`
-	Shapes      []uint64          `json:"shapes"`      // distinct non-trivial program shapes (hashes)
-	States      []uint64          `json:"states"`      // distinct model states (hashes)
-	Inters      []uint64          `json:"inters"`      // distinct interleavings (hashes)
+	Shapes      []uint64          `json:"shapes"` // distinct non-trivial program shapes (hashes)
+	States      []uint64          `json:"states"` // distinct model states (hashes)
+	Inters      []uint64          `json:"inters"` // distinct interleavings (hashes)
 	Ops         int               `json:"ops"`
 	SimNS       int64             `json:"sim_ns"`
 	Faults      map[string]int    `json:"faults"`
 	Probes      map[string]int    `json:"probes"`
 	Samples     []json.RawMessage `json:"samples"`
 	WallS       float64           `json:"wall_s"`
-	Known       map[string]int    `json:"known"` // signature -> times re-observed
+	Known       map[string]int    `json:"known"`       // signature -> times re-observed
 	Other       map[string]int    `json:"other_props"` // violations of other properties seen (rule -> n), informational
 	Failure     *Failure          `json:"failure,omitempty"`
 	Trouble     string            `json:"trouble,omitempty"`
 	Exhaustive  bool              `json:"exhaustive,omitempty"`
+	Corpus      int               `json:"corpus,omitempty"`
 
 	EventSink        *os.File `json:"-"`
 	IgnoreViolations bool     `json:"-"`
@@ -214,7 +216,73 @@ func Classify(prop string, vs []Violation, known []KnownFinding) (own []Violatio
 
 // RunCheck is the body shared by the go-test entry point.
 // Returns exit code semantics via the report: Failure (1) / Trouble (2).
+// corpusPrograms loads the directed scenarios kept for a world:
+// $VERIF_CORPUS/<world>/*.json, each a Program (or a replay file, whose
+// "program" member is used). They are minimised schedules that once exposed a
+// defect or a deliberately broken tree; worker 0 of every check of that world
+// executes them before the seeded search starts.
+func corpusPrograms(world string) ([]*Program, []string, error) {
+	dir := os.Getenv("VERIF_CORPUS")
+	if dir == "" {
+		return nil, nil, nil
+	}
+	names, _ := filepath.Glob(filepath.Join(dir, world, "*.json"))
+	sort.Strings(names)
+	var out []*Program
+	for _, n := range names {
+		b, err := os.ReadFile(n)
+		if err != nil {
+			return nil, nil, err
+		}
+		var rf struct {
+			Program json.RawMessage `json:"program"`
+		}
+		if err := json.Unmarshal(b, &rf); err == nil && len(rf.Program) > 0 {
+			b = rf.Program
+		}
+		p := &Program{}
+		if err := json.Unmarshal(b, p); err != nil {
+			return nil, nil, fmt.Errorf("%s: %v", n, err)
+		}
+		out = append(out, p)
+	}
+	return out, names, nil
+}
+
 func RunCheck(t rapid.TB, spec *CheckSpec, rep *Report, known []KnownFinding) {
+	if os.Getenv("VERIF_WORKER_INDEX") == "0" {
+		progs, names, err := corpusPrograms(spec.World)
+		if err != nil {
+			rep.Trouble = "corpus: " + err.Error()
+			t.Fatalf("TROUBLE: %s", rep.Trouble)
+		}
+		for i, p := range progs {
+			res := spec.Run(p)
+			rep.Record(spec, p, res)
+			rep.Corpus++
+			if rep.EventSink != nil {
+				fmt.Fprintf(rep.EventSink, "== corpus %s\n%s\n", filepath.Base(names[i]), strings.Join(res.Events, "\n"))
+			}
+			if res.Trouble != "" {
+				rep.Trouble = res.Trouble + "\ncorpus program: " + names[i]
+				t.Fatalf("TROUBLE: %s", res.Trouble)
+			}
+			own, hits, other := Classify(spec.Prop, res.Violations, known)
+			for _, h := range hits {
+				rep.Known[h]++
+			}
+			for _, o := range other {
+				rep.Other[o]++
+			}
+			if len(own) > 0 && !rep.IgnoreViolations && rep.Failure == nil {
+				v := own[0]
+				rep.Failure = &Failure{Violation: v, Signature: v.Signature(), Program: mustJSON(p), Events: res.Events, size: len(mustJSON(p))}
+			}
+		}
+		if rep.Failure != nil {
+			t.Fatalf("VIOLATION %s", rep.Failure.Violation.String())
+		}
+	}
 	if spec.Enum != nil {
 		if os.Getenv("VERIF_WORKER_INDEX") != "0" {
 			return
